@@ -149,6 +149,27 @@ def gen_xsd(src):
         text = dec.plain((sign, coeff, exp))
     else:
         text = dec.sci((sign, coeff, exp)) if src.bool(0.7) else dec.plain((sign, coeff, src.int(-30, 30)))
+    # other valid lexical forms of the same value (XML Schema part 2): a leading plus sign, leading zeros, `.5` / `5.` for decimals and
+    # doubles, and for doubles the exponent marker in either case with or without a plus sign
+    if src.bool(0.4):
+        body = text[1:] if text.startswith("-") else text
+        sg = "-" if text.startswith("-") else ""
+        for _ in range(src.int(1, 2)):
+            v = src.choice(["plus", "zeros", "lower-e", "exp-nosign", "dot-edge"])
+            if v == "plus" and not sg:
+                sg = "+"
+            elif v == "zeros":
+                body = "0" * src.int(1, 3) + body
+            elif v == "lower-e" and kind == "xsd_double":
+                body = body.replace("E", "e")
+            elif v == "exp-nosign" and kind == "xsd_double":
+                body = body.replace("E+", "E").replace("e+", "e")
+            elif v == "dot-edge" and kind != "xsd_integer" and "E" not in body and "e" not in body:
+                if body.startswith("0.") and len(body) > 2:
+                    body = body[1:]
+                elif "." not in body:
+                    body = body + "."
+        text = sg + body
     return {"kind": kind, "text": text}
 
 
